@@ -74,3 +74,10 @@ Print Assumptions C03_explain_example_touched.
 Theorem C03_explain_trace_covers : forall g locs evs w pend i w', replay g w pend evs i = WOk w' -> map fst (explain_trace g locs w pend evs) = verdict_steps evs.
 Proof. exact explain_trace_covers. Qed.
 Print Assumptions C03_explain_trace_covers.
+
+(* from the audit (Proofs/AuditR6.v, W_C03_trace_covers_met_by_silence: the statement above compares
+   the steps only): every entry of the trace is explain_verdict on the state the replay is in at that
+   verdict ([verdict_states] walks the events like World.replay and keeps the state before each verdict) *)
+Theorem C03_explain_trace_is_verdicts : forall g locs evs w pend, explain_trace g locs w pend evs = map (fun bw => (fst bw, explain_verdict g (snd bw) (fst bw) (get_wbuild g (fst bw)) (nth (fst bw) locs []))) (verdict_states g w pend evs).
+Proof. exact explain_trace_is_verdicts. Qed.
+Print Assumptions C03_explain_trace_is_verdicts.
